@@ -45,10 +45,18 @@ def _c20_specs(seed, n, ref):
             spec['strategy'] = {'kind': 'focus', 'fns': wfns, 'p': 0.3}
             spec['instr_fn'] = wfns[i % 3]
             spec['focus_faults'] = [[0, 2 + i % 5, 'abort']]
+        elif i % 13 == 11:
+            # tree histories: every dialect name on one shared tree per statement
+            ths = gen.gen_tree_histories(s, c, True)
+            spec = ths[i % len(ths)]
         elif i % 3 == 2:
             spec = gen.gen_s2(s, c, ref)
         else:
             spec = gen.gen_s1(s, c, ref, 0.15, 0.1 if i % 10 == 0 else 0.0)
+            if i % 4 == 0 and not spec.get('pre'):
+                # aged process: a single-threaded prehistory before the clients start
+                import random as _r
+                spec['pre'] = gen.gen_prehistory(_r.Random('selftest/%d' % s), c, [op for cl in spec['clients'] for op in cl])[:40]
         spec = gen.attach(spec, ref, c['probes'])
         spec['full_digest'] = True
         out.append(spec)
